@@ -23,7 +23,7 @@ import (
 func TestMain(m *testing.M) {
 	kit.Main(m, "C16", "exploration",
 		"session caching on, sizes 1-3, every session-cache eviction policy (default slru, lru, lfu, tinylfu), expiry 0 / 2 s / 1 min on the virtual clock, per-session and shared IK caches. "+
-			"(00) the sequential machine with a debug logger installed; parallel first GetSession calls on a fresh factory; a hot partition got and closed by many goroutines while held; (0) session caches of capacity 100 / 101 (where the frequency-sketch policies switch on their admission window) walked through by up to 3 x (capacity + 25) gets with re-gets of recent partitions and handles held across them; (1) rapid state machine: get a session (more partitions than slots), use a held session (encrypt / decrypt any earlier record of its partition), close a handle, advance the clock, with handles held across other partitions' gets; "+
+			"(00) the sequential machine with a debug logger installed; parallel first GetSession calls on a fresh factory; a hot partition got and closed by many goroutines while held; ENUMERATED: 20 000 (thorough: 200 000) distinct partition ids all live in one large session cache, each must be handed its own session (the record it writes names its own key); (0) session caches of capacity 100 / 101 (where the frequency-sketch policies switch on their admission window) walked through by up to 3 x (capacity + 25) gets with re-gets of recent partitions and handles held across them; (1) rapid state machine: get a session (more partitions than slots), use a held session (encrypt / decrypt any earlier record of its partition), close a handle, advance the clock, with handles held across other partitions' gets; "+
 			"(2) concurrent: 2-6 goroutines doing the same under a rapid-drawn delay plan (1-3 pauses) over the yield points in session_cache.go, session.go, pkg/cache/cache.go and key_cache.go, plus every reachable site of session_cache.go and pkg/cache/cache.go as a single preemption for tight configurations. "+
 			"Oracle: every operation on a held session succeeds with the right bytes no matter what was evicted or expired meanwhile; two consecutive GetSession calls for one partition with no other partition requested and no expiry in between return the same underlying session; "+
 			"the tracking SecretFactory never sees a secret read after it was closed nor closed twice; after the factory and the last holders are closed every secret is released (bounded polling for the asynchronous teardown). "+
